@@ -283,14 +283,17 @@ def strip_lean_comments(s):
 # ----------------------------------------------------------------------------- findings / evidence
 
 def known_findings():
-    """open findings: list of dicts {property, id, match, what}; `fixed:` lines suppress nothing"""
+    """open findings of /verif/known_findings.txt: dicts {property, id, key, what, status};
+    `fixed:` lines are history and suppress nothing"""
     out = []
-    p = os.path.join(VERIF, 'known_findings.jsonl')
+    p = os.path.join(VERIF, 'known_findings.txt')
     if os.path.exists(p):
         for line in open(p):
             line = line.strip()
-            if line and not line.startswith('#'):
-                out.append(json.loads(line))
+            if line.startswith('open:'):
+                m = re.match(r'open: property=(\S+) id=(\S+) key=(\S+) (.*)', line)
+                if m:
+                    out.append({'property': m.group(1), 'id': m.group(2), 'key': m.group(3), 'what': m.group(4), 'status': 'open'})
     return out
 
 
